@@ -76,7 +76,9 @@ EnergyCheck ==
   IN IF Len(R.v) # n THEN {"Shape"}
      ELSE Fails(Close(R.ein, einRep, t10) /\ Close(R.euke, ekRep, FAdd(FMul(FStr("1e-10"), ekRep), FStr("1e-300")))
                 /\ Close(R.ein, einMod, tmod), "EnergyDefSums")
-          \cup (IF FLt(R.ein, FNeg(t10))
+          \* non-negative at the end of the record -- up to what the C01 tolerance on the velocity can explain (tmod):
+          \* where the exact velocity vanishes at the sample instants (xi = 0, T/dt = 1, 1/2) the sum is rounding noise
+          \cup (IF FLt(R.ein, FNeg(tmod))
                 THEN (IF FLt(einMod, Zero) THEN {"InputEnergyNonNeg_DefiningSumNegative"} ELSE {"InputEnergyNonNeg"})
                 ELSE {})
 
